@@ -43,12 +43,12 @@ static int cmp_long(const void *a, const void *b) { long x = *(const long *) a, 
 /* order-insensitive summary of the recorded event string */
 static void summary(int rc) {
     static long al[MAXEV], fl[MAXEV], fr[MAXEV];
-    int na = 0, nf = 0, nr = 0, i, j, first;
+    int na = 0, nf = 0, nr = 0, npf = 0, i, j, first;
     char *p = evbuf;
     while (*p) {
         char kind = *p++;
         long id;
-        if (*p == 'p') { p++; while (*p == ' ') p++; continue; }    /* pre-existing block: outside the window */
+        if (*p == 'p') { if (kind == 'F') npf++; p++; while (*p == ' ') p++; continue; }    /* pre-existing block: only counted */
         id = strtol(p, &p, 10);
         while (*p == ' ') p++;
         if (kind == 'A') al[na++] = id; else if (kind == 'X') fl[nf++] = id; else if (kind == 'F') fr[nr++] = id;
@@ -67,6 +67,7 @@ static void summary(int rc) {
         if (j == nr) { OUT("%s%ld", first ? "" : ",", al[i]); first = 0; }
     }
     if (first) OUT("-");
+    OUT(" pfrees=%d", npf);
     if (evoverflow) OUT(" overflow");
 }
 
@@ -145,32 +146,35 @@ static void handle(int argc, char **argv) {
         if (cif) cif_destroy(cif);
         for (i = 0; i < n; i++) free(names[i]);
         free(names);
-    } else if (argc >= 4 && !strcmp(argv[1], "set")) {
-        /* the target is element 1 of [ ? [ 'hi' 1.5(2) ] ? ]: cleaning it releases pre-existing blocks only */
-        cif_value_tp *lst = NULL, *e, *filler = NULL, *old = NULL, *probe = NULL;
-        UChar txt[] = { 'h', 'i', 0 };
-        UChar *num = NULL;
+    } else if (argc >= 5 && !strcmp(argv[1], "set")) {
+        /* the target is element 1 of [ ? <tshape> ? ]; replacing it releases pre-existing blocks only (counted as pfrees) */
+        cif_value_tp *lst = NULL, *e, *filler = NULL, *old, *probe = NULL;
         size_t n = 99;
         int i;
         pos = 2;
-        e = mk(argv, argc, &pos);
-        if (!e || pos != argc - 1) { OUT("bad-op"); cif_value_free(e); return; }
+        old = mk(argv, argc, &pos);
+        e = old ? mk(argv, argc, &pos) : NULL;
+        if (!old || !e || pos != argc - 1) { OUT("bad-op"); cif_value_free(e); cif_value_free(old); return; }
         cif_value_create(CIF_LIST_KIND, &lst);
         cif_value_create(CIF_UNK_KIND, &filler);
-        cif_value_create(CIF_LIST_KIND, &old);
-        cif_value_copy_char(filler, txt); cif_value_insert_element_at(old, 0, filler);
-        unhex("0031002e0035002800320029", &num, NULL);
-        if (cif_value_parse_numb(filler, num) != CIF_OK) free(num);
-        cif_value_insert_element_at(old, 1, filler);
-        cif_value_clean(filler);
         for (i = 0; i < 3; i++) cif_value_insert_element_at(lst, 0, i == 1 ? old : filler);
         verif_arm(0, atol(argv[pos]));
         ARM(); rc = cif_value_set_element_at(lst, 1, e); DISARM();
         summary(rc);
-        /* the list and its (possibly half-replaced) element must still be usable and releasable */
+        /* the list and its element must still be usable and releasable ("objects owned by the caller stay valid"); on
+           success the element equals the source */
         if (cif_value_get_element_count(lst, &n) != CIF_OK || n != 3) OUT(" !COUNT");
         if (cif_value_get_element_at(lst, 1, &probe) != CIF_OK || !probe) OUT(" !ELEM");
-        else if (rc == CIF_OK && cif_value_kind(probe) != cif_value_kind(e)) OUT(" !KIND");
+        else {
+            char *a = NULL, *b = NULL; size_t sa = 0, sb = 0;
+            FILE *fa = open_memstream(&a, &sa), *fb = open_memstream(&b, &sb);
+            /* on failure the element only has to be a valid value (the dump walks all of it under ASan); that the
+               repaired code leaves it untouched is observed as pfrees=0 and compared with the model */
+            fdump_value(fa, probe); fdump_value(fb, e);
+            fclose(fa); fclose(fb);
+            if (rc == CIF_OK && (!a || !b || strcmp(a, b))) OUT(" !NEWVALUE");
+            free(a); free(b);
+        }
         cif_value_free(old); cif_value_free(filler); cif_value_free(e); cif_value_free(lst);
     } else {
         OUT("bad-op");
